@@ -25,3 +25,56 @@ def pytest_runtest_call(item):
         _emit("test.start", nodeid=item.nodeid, backend="?", precision="?", optimizer="?", registry=-1)
     outcome = yield
     _emit("test.end", nodeid=item.nodeid, failed=outcome.excinfo is not None)
+
+
+# ---- harness-side observer (H9/H6 of DESIGN 3.4): pyhf.infer.hypotest is wrapped so that every call a test makes is bracketed
+# by ht.call / ht.return records and followed by the Asimov dataset recomputed through the model's own public API
+def _install_hypotest_observer():
+    try:
+        import pyhf
+        from pyhf import _verif
+        import pyhf.infer as infer
+    except Exception:  # noqa: BLE001
+        return
+    if not _verif.ON or getattr(infer.hypotest, "_verif_wrapped", False):
+        return
+    try:
+        from htcodes import classify
+    except Exception:  # noqa: BLE001
+        return
+    orig = infer.hypotest
+
+    def hypotest(poi_test, data, pdf, init_pars=None, par_bounds=None, fixed_params=None, calctype="asymptotics",
+                 return_tail_probs=False, return_expected=False, return_expected_set=False, return_calculator=False, **kwargs):
+        buf = []
+        try:
+            tl = pyhf.tensorlib
+            obs = [float(x) for x in tl.tolist(tl.astensor(data))]
+            _verif.emit("ht.call", kind=kwargs.get("test_stat", "qtilde"), calc=calctype, ntoys=int(kwargs.get("ntoys", 2000)),
+                        mu=float(tl.tolist(tl.astensor(poi_test))) if not isinstance(poi_test, (int, float)) else float(poi_test),
+                        poi=pdf.config.poi_index, obs=obs, tail=bool(return_tail_probs), exp=bool(return_expected),
+                        expset=bool(return_expected_set), calcflag=bool(return_calculator))
+            _verif.set_sink(buf.append)
+        except Exception:  # noqa: BLE001
+            pass
+        try:
+            res = orig(poi_test, data, pdf, init_pars, par_bounds, fixed_params, calctype, return_tail_probs, return_expected,
+                       return_expected_set, return_calculator, **kwargs)
+        finally:
+            _verif.set_sink(None)
+        try:
+            rets = [r["x"] for r in buf if r["ev"] == "fit.return"]
+            asimov = []
+            if calctype == "asymptotics" and len(rets) >= 3:
+                tl = pyhf.tensorlib
+                asimov = [float(x) for x in tl.tolist(pdf.expected_data(tl.astensor(rets[2])))]
+            _verif.emit("ht.return", layout=classify(res)[0], asimov=asimov)
+        except Exception:  # noqa: BLE001
+            pass
+        return res
+    hypotest._verif_wrapped = True
+    infer.hypotest = hypotest
+
+
+def pytest_sessionstart(session):
+    _install_hypotest_observer()
